@@ -245,6 +245,15 @@ class World:
                     break
         return self._T
 
+    LENGTH_VARIANTS = ("short", "long_prefix", "long_suffix")
+
+    def length_variants(self, cls):
+        """All wrongly sized variants of K1's encoding of one class (KeyValidate is shown every one of them)."""
+        pk = self.pk("K1")
+        return {"short": [b"", pk[:47], pk[1:], pk[:20], pk[:1], pk[:-1] + b""],
+                "long_prefix": [b"\x00" + pk, b"\x01" + pk, b"\xff" * 10 + pk, b"\x00" * 48 + pk, b"\x80" + pk],
+                "long_suffix": [pk + b"\x00", pk + b"\x01", pk + pk, pk + b"\xff" * 152, pk + bytes(48)]}[cls]
+
     def bad_key(self, cls, keyname="K1"):
         rng, p = self.rng, self.p
         pk = self.pk("K1")
@@ -253,12 +262,8 @@ class World:
             T = self.torsion()
             base = ob.multiply(ob.G1, self.sk(keyname))
             return g2p.G1_to_pubkey(ob.add(base, T if cls.endswith("plus") else ob.neg(T)))
-        if cls == "short":
-            return rng.choice([b"", pk[:47], pk[1:], pk[:20], pk[:1]])
-        if cls == "long_prefix":
-            return rng.choice([b"\x00" + pk, b"\x01" + pk, b"\xff" * 10 + pk, b"\x00" * 48 + pk])
-        if cls == "long_suffix":
-            return rng.choice([pk + b"\x00", pk + pk, pk + b"\xff" * 152])
+        if cls in self.LENGTH_VARIANTS:
+            return rng.choice(self.length_variants(cls))
         if cls == "cflag0":
             return bytes([pk[0] & 0x7f]) + pk[1:]
         if cls == "inf_badflags":
@@ -388,10 +393,29 @@ def _run_scenario(job):
     row["steps"] = list(_W["steps"])
     row["stepsok"] = 1 if _W["pstate"]["wrapped"] else 0
     row["inputs"] = {"pks": [b.hex() for b in pks], "msgs": [m.hex()[:64] for m in ms], "sig": sig.hex()}
+    # the same call once more in the same interpreter (malformed inputs always, the others one time in four): a
+    # verdict must not depend on the input having been presented before
+    row["again"] = row["got"]
+    malformed = any(pk.get("cls") != "valid" for pk in sc["pks"]) or sc["sig"].get("cls") != "valid"
+    if not row["raised"] and (malformed or idx % 4 == 0):
+        try:
+            res2 = {"Verify": lambda: S.Verify(pks[0], ms[0], sig), "PopVerify": lambda: S.PopVerify(pks[0], sig),
+                    "AggregateVerify": lambda: S.AggregateVerify(pks, ms, sig),
+                    "FastAggregateVerify": lambda: S.FastAggregateVerify(pks, ms[0], sig),
+                    "KeyValidate": lambda: S.KeyValidate(pks[0])}[sc["entry"]]()
+            row["again"] = 1 if res2 is True else 0
+            if sc["entry"] == "KeyValidate" and sc["pks"][0].get("cls") in World.LENGTH_VARIANTS:
+                for v in w.length_variants(sc["pks"][0]["cls"]):           # every variant, every suite: False, no raise
+                    for S2 in _W["suites"].values():
+                        if S2.KeyValidate(v) is not False:
+                            row["again"] = 1
+        except Exception as ex:  # noqa: BLE001
+            row["again"] = -1
+            row["raise_info"] = f"second call: {type(ex).__name__}:{ex}"[:160]
     return row
 
 
-SK_CLASSES = ["1", "2", "mid", "bits", "r-2", "r-1", "0", "r", "r+1", "-1", "2^255", "2r", "nonint"]
+SK_CLASSES = ["1", "2", "mid", "bits", "r-2", "r-1", "0", "r", "r+1", "-1", "2^255", "2r", "nonint", "bandpk", "bandsig"]
 
 
 def _run_seq(job):
@@ -422,6 +446,41 @@ def _run_seq(job):
     return row
 
 
+def _band_search(rng, cls, suite, want_top=True):
+    """Input generation only: a valid secret key (and message) for which a coordinate of the public key
+    ("bandpk") or of the signature point ("bandsig", basic / pop suite) lies in a boundary band of the 381-bit
+    range - top byte 0x1a (the narrow band just below p), or a zero top byte.  Found by walking k -> k + 1 with
+    one point addition per step; the abstraction to affine x is the harness's own arithmetic."""
+    ob = _W["ob"]
+    p, r = ob.field_modulus, ob.curve_order
+    msg = rng.randbytes(rng.choice(World.MLENS))
+    k = rng.randrange(2 ** 200, r - 10 ** 6)
+    if cls == "bandsig" and suite != "aug":
+        from py_ecc.bls.hash_to_curve import hash_to_G2
+        S = _W["suites"][suite]
+        base = hash_to_G2(msg, S.DST, S.xmd_hash_function)
+        deg = 2
+    else:
+        base, deg = ob.G1, 1
+    P = ob.multiply(base, k)
+    hit = lambda v: (v >> 376) == 0x1a if want_top else (v >> 376) == 0       # noqa: E731
+    for _ in range(40000):
+        if deg == 1:
+            x = int(P[0].n) * pow(int(P[2].n), p - 2, p) % p
+            found = hit(x)
+        else:
+            from .grouptrace import f2_inv, f2_mul
+            X = tuple(int(c) for c in P[0].coeffs)
+            Z = tuple(int(c) for c in P[2].coeffs)
+            x = f2_mul(p, X, f2_inv(p, Z))
+            found = hit(x[0]) or hit(x[1])
+        if found:
+            return k, msg, 1
+        P = ob.add(P, base)
+        k += 1
+    return k, msg, 0
+
+
 def _run_sk(job):
     idx, seed, cls, suite = job
     _init_worker()
@@ -432,7 +491,10 @@ def _run_sk(job):
     kk = 1 + idx % 254
     pattern = rng.choice([(1 << kk) - 1, 1 << kk, (1 << kk) - (1 << rng.randrange(0, kk)), (1 << kk) | rng.getrandbits(kk),
                           ((1 << kk) - 1) ^ (1 << rng.randrange(0, kk))])
-    val = {"1": 1, "2": 2, "mid": rng.getrandbits(128) | 1, "bits": pattern,
+    band = None
+    if cls in ("bandpk", "bandsig"):
+        band = _band_search(rng, cls, suite, want_top=(idx % 3 != 2))
+    val = {"1": 1, "2": 2, "mid": rng.getrandbits(128) | 1, "bits": pattern, "bandpk": band and band[0], "bandsig": band and band[0],
            "r-2": r - 2, "r-1": r - 1, "0": 0, "r": r, "r+1": r + 1, "-1": -1, "2^255": 2 ** 255, "2r": 2 * r,
            "nonint": rng.choice(["1", 1.0, None, b"\x01", (1,)])}[cls]
     if cls == "bits":
@@ -459,8 +521,10 @@ def _run_sk(job):
         except Exception as e:  # noqa: BLE001
             row["exc"] = f"EXC:{type(e).__name__}:{e}"[:120]
         return row
-    msg = rng.randbytes(rng.choice(World.MLENS))
+    msg = band[1] if band else rng.randbytes(rng.choice(World.MLENS))
     row = {"op": "sk", "cls": cls, "suite": suite, "raised": 0, "ok": 0, "bitlen": val.bit_length() if isinstance(val, int) else -1}
+    if band:
+        row["band"] = band[2]
     try:
         try:
             pk = S.SkToPk(val)
@@ -606,7 +670,10 @@ def select(scs, rng, per_group):
         rej = [x for x in g if not x["expect"]]
         # among the rejected ones, first those that would be accepted if the encodings were canonical
         rej.sort(key=lambda x: 0 if x.get("core") else 1)
-        out += acc[:per_group] + rej[:per_group]
+        if key[0] == "KeyValidate":         # cheap calls: every class of every run
+            out += g
+        else:
+            out += acc[:per_group] + rej[:per_group]
     return out
 
 
@@ -691,6 +758,9 @@ def run(ctx: Ctx, focus):
                 sk_jobs.append((b - 1, ctx.seed + 9500 + 7 * b + rep, "bits", ("basic", "aug", "pop")[(b + rep) % 3]))
         kg_jobs = [(i, ctx.seed + 12000 + i, ("basic", "aug", "pop")[i % 3]) for i in range(6 if quick else 60)]
         seq_jobs = [(i, ctx.seed + 13000 + i) for i in range(8 if quick else 80)]
+    if focus == "C02":      # the canonical signature must be accepted also where its coordinates sit in boundary bands
+        for i in range(6 if quick else 36):
+            sk_jobs.append((i, ctx.seed + 15000 + i, ("bandsig", "bandsig", "bandpk")[i % 3], ("basic", "pop", "aug")[(i // 3 + i) % 3]))
     if focus == "C03":
         for i in range(16 if quick else 160):
             n = rng.choice([1, 2, 3, 4, 6])
